@@ -647,6 +647,10 @@ func (t *Table) Put(input *types.PutItemInput) (map[string]*types.Item, error) {
 	}
 
 	// support conditional writes
+	if err := checkConditionNotBlank(input.ConditionExpression); err != nil {
+		return item, err
+	}
+
 	if input.ConditionExpression != nil {
 		_, matched := t.matchKey(QueryInput{
 			Index:                     PrimaryIndexName,
@@ -732,6 +736,10 @@ func (t *Table) Update(input *types.UpdateItemInput) (map[string]*types.Item, er
 	}
 
 	// support conditional writes
+	if err := checkConditionNotBlank(input.ConditionExpression); err != nil {
+		return nil, err
+	}
+
 	if input.ConditionExpression != nil {
 		query := QueryInput{
 			Index:                     PrimaryIndexName,
@@ -806,6 +814,10 @@ func (t *Table) Delete(input *types.DeleteItemInput) (map[string]*types.Item, er
 	}
 
 	// support conditional writes: the condition is evaluated on the target item only
+	if err := checkConditionNotBlank(input.ConditionExpression); err != nil {
+		return nil, err
+	}
+
 	if input.ConditionExpression != nil {
 		aliases := map[string]string{}
 		for k, v := range input.ExpressionAttributeNames {
@@ -916,6 +928,16 @@ func conditionalCheckFailed(returnValues *string, stored map[string]*types.Item)
 	}
 
 	return types.NewError("ConditionalCheckFailedException", ErrConditionalRequestFailed.Error(), nil)
+}
+
+// checkConditionNotBlank refuses a condition expression that is given but empty: "no condition" is
+// a request without the parameter
+func checkConditionNotBlank(expression *string) error {
+	if expression != nil && strings.TrimSpace(*expression) == "" {
+		return types.NewError("ValidationException", "Invalid ConditionExpression: The expression can not be empty;", nil)
+	}
+
+	return nil
 }
 
 func handleConditionalCheckError(input *types.UpdateItemInput, checkErr *types.ConditionalCheckFailedException, item map[string]*types.Item) {
